@@ -123,8 +123,12 @@ def value(rng):
                         'tab\there', "it's", '[b]', '{}', 'ünï',
                         # a backslash followed by n inside a *value* is just
                         # those two characters
-                        'a\\nb', 'c:\\new', '\\n'])
-        return '"{}"'.format(s), s
+                        'a\\nb', 'c:\\new', '\\n',
+                        # quotes inside the text (written \" in the script),
+                        # also as its last character; form feed and friends
+                        'He said "hi"', 'a"b', '"', '"x', 'x"',
+                        'page\x0cbreak', 'v\x0btab', 'fs\x1cgs\x1drs\x1e'])
+        return '"{}"'.format(s.replace('"', '\\"')), s
     if k == 3:
         n = rng.choice(['yes', 'no'])
         return n, VARS_ALL[n]
